@@ -40,6 +40,7 @@ func main() {
 	vbias := fs.Int("vbias", 0, "validator-set op bias (C16)")
 	regone := fs.Bool("regone", false, "only v0 has an EVM address at genesis")
 	allreg := fs.Bool("allreg", false, "c17: all validators have EVM addresses from the start and the checkpoints order them differently")
+	nvals := fs.Int("nvals", 0, "number of genesis validators (default 3)")
 	signed := fs.Bool("signed", false, "messages travel as signed transactions through the installed ante handler")
 	signedhalf := fs.Bool("signedhalf", false, "every second history runs in signed mode")
 	minthalf := fs.Bool("minthalf", false, "every second history starts minting in its first block")
@@ -78,7 +79,7 @@ func main() {
 	case "hist":
 		err = h.RunHist(*trace, *stats, h.HistDriverOpts{N: *n, Seed: *seed, Proj: *proj, Only: *only, SignedHalf: *signedhalf, MintHalf: *minthalf,
 			Opts: h.HistOpts{Blocks: *blocks, MaxOpsPerBlk: *maxops, Boundary: *boundary, GovOps: *gov, NoBadValues: *nobad, TimeJumps: *jumps,
-				DisputeBias: *dbias, StakingBias: *sbias, BridgeBias: *bbias, MintInitEarly: *mintinit, ValStatus: *valstatus, Stories: *stories, Probe: *probe, ValsetBias: *vbias}, World: h.WorldOpts{RegisterOnlyFirst: *regone, Chain: h.ChainOpts{Signed: *signed}}})
+				DisputeBias: *dbias, StakingBias: *sbias, BridgeBias: *bbias, MintInitEarly: *mintinit, ValStatus: *valstatus, Stories: *stories, Probe: *probe, ValsetBias: *vbias}, World: h.WorldOpts{RegisterOnlyFirst: *regone, Chain: h.ChainOpts{Signed: *signed, NumVals: *nvals}}})
 	default:
 		err = fmt.Errorf("unknown driver %q", os.Args[1])
 	}
